@@ -417,6 +417,7 @@ EncLayout gen_layout(Rng &r) {
     L.byte_params = r.chance(1, 4);
     L.three_d_params = r.chance(1, 4);
     L.long_desc = r.chance(1, 4);
+    L.reserved_nonzero = r.chance(1, 6);
     return L;
 }
 EncContent gen_content(Rng &r) {
@@ -438,7 +439,7 @@ std::string layout_to_text(const EncLayout &L, const EncContent &C) {
       << " shuffle_groups=" << L.shuffle_groups << " shuffle_params=" << L.shuffle_params << " sparse_ids=" << L.sparse_ids
       << " zero_next_end=" << L.end_with_zero_next << " empty_analog=" << L.empty_analog_group << " label_delta=" << L.label_delta
       << " first_frame=" << L.first_frame << " events=" << L.events << " byte=" << L.byte_params << " 3d=" << L.three_d_params
-      << " long_desc=" << L.long_desc << "} content{points=" << C.points << " channels=" << C.channels << " subframes=" << C.subframes
+      << " long_desc=" << L.long_desc << " reserved_nonzero=" << L.reserved_nonzero << "} content{points=" << C.points << " channels=" << C.channels << " subframes=" << C.subframes
       << " frames=" << C.frames << "}";
     return o.str();
 }
@@ -597,6 +598,15 @@ std::vector<uint8_t> ref_encode(const EncLayout &L, const EncContent &C0) {
             std::string lab = genName(r, 4);
             for (size_t i = 0; i < 4; ++i) hd[2 * (199 - 1) + 4 * e + i] = i < lab.size() ? static_cast<uint8_t>(lab[i]) : ' ';
         }
+    }
+    if (L.reserved_nonzero) {
+        // words 13..147 and 235..256 are reserved: some writers leave data there
+        Rng rr(L.seed ^ 0x5eedULL);
+        unsigned n1 = 1 + static_cast<unsigned>(rr.below(8));
+        for (unsigned k = 0; k < n1; ++k) hd[2 * (13 - 1) + rr.below(270)] = static_cast<uint8_t>(1 + rr.below(255));
+        if (rr.chance(1, 2)) for (unsigned k = 0; k < 4; ++k) hd[2 * (13 - 1) + k] = 0xFF;
+        unsigned n2 = static_cast<unsigned>(rr.below(4));
+        for (unsigned k = 0; k < n2; ++k) hd[2 * (235 - 1) + rr.below(44)] = static_cast<uint8_t>(1 + rr.below(255));
     }
     out.insert(out.end(), hd.begin(), hd.end());
     out.resize(L.leading_zeros + 512ull * (L.param_block - 1), 0);
